@@ -125,7 +125,7 @@ def materialise(root, entries, names=None, contents=None):
             if e.get("hl"):
                 later.append(e); continue
             if "sparse" in e:
-                write_cells(path, e["sparse"], 4096, fid=5)
+                write_cells(path, e["sparse"], 4096, tail=e.get("sparse_tail", 0), fid=5)
                 with open(path, "rb") as f:
                     contents.register(e.get("c", "SPARSE"), f.read())
                 continue
